@@ -19,7 +19,7 @@ from . import coqlit as L
 from .core import Relation, err_kind
 
 PROP = "C16"
-CLAIMED = False
+CLAIMED = True
 COQ_MODULES = ["PearsonQ", "C16_Model", "C16_Check", "C16_Proofs"]
 PROPERTY_MODULE = "C16_Property"
 ALLOWED_AXIOMS = []
